@@ -88,7 +88,13 @@ pub fn check(c: &ColourCase, info: &mut CaseInfo) -> Result<(), String> {
                     ));
                 }
             }
-            wb.raw.iter().filter_map(|r| if let Raw::IfacePix { words } = r { Some(words.clone()) } else { None }).collect()
+            // the words of the burst in bus order, however the driver grouped them into interface calls
+            let flat = flat_words(&wb.raw);
+            let wpp = spec_words(bits, bus_bits, v).len();
+            if raw_level && flat.len() != wpp * n as usize {
+                return Err(format!("a stream of {} pixels put {} words on the bus, the announced format requires {} per pixel", n, flat.len(), wpp));
+            }
+            flat.chunks(wpp.max(1)).map(|c| c.to_vec()).collect()
         };
         if raw_level {
             for (i, wds) in stream_words.iter().enumerate() {
@@ -142,8 +148,8 @@ pub fn check(c: &ColourCase, info: &mut CaseInfo) -> Result<(), String> {
             }
             let wb = w.borrow();
             if raw_level {
-                let rep: Vec<&Vec<u16>> = wb.raw.iter().filter_map(|r| if let Raw::IfaceRepeat { pixel, .. } = r { Some(pixel) } else { None }).collect();
-                if rep.len() != 1 || *rep[0] != stream_words[i as usize] {
+                let rep = flat_words(&wb.raw);
+                if rep != stream_words[i as usize] {
                     return Err(format!(
                         "colour {:#x}: a solid fill encodes it as {:04x?}, a pixel stream as {:04x?}",
                         val, rep, stream_words[i as usize]
@@ -158,6 +164,23 @@ pub fn check(c: &ColourCase, info: &mut CaseInfo) -> Result<(), String> {
     info.label(c.transport.label());
     let _ = ColourStream::next;
     Ok(())
+}
+
+/// pixel words handed to the interface, in bus order (streamed pixels and repeats alike)
+fn flat_words(raw: &[Raw]) -> Vec<u16> {
+    let mut out = Vec::new();
+    for r in raw {
+        match r {
+            Raw::IfacePix { words } => out.extend_from_slice(words),
+            Raw::IfaceRepeat { pixel, count } => {
+                for _ in 0..(*count).min(1 << 16) {
+                    out.extend_from_slice(pixel);
+                }
+            }
+            _ => {}
+        }
+    }
+    out
 }
 
 fn cases(models: &[ModelId], transports: &[Transport], chunk: u32) -> Vec<ColourCase> {
